@@ -25,6 +25,7 @@ type Tables struct {
 	ConsumeReset  []ConsumeResetSpec  `json:"consume_reset"`
 	Nesting       []NestingSpec       `json:"nesting"`
 	CoAccess      []CoAccessSpec      `json:"co_access"`
+	NestedKills   []NestedKillSpec    `json:"nested_kills"`
 	Termination   TermSpec            `json:"termination"`
 	FuncProps     map[string][]string `json:"func_props"` // function key -> properties that depend on its termination
 	// E5
